@@ -70,6 +70,16 @@ fn cmp_attr(what: &str, step: usize, text: &str, got: &[AttrFull], want: &[AttrF
   Ok(())
 }
 
+/// bytes -> case (fuzz target `hist_c10`)
+pub fn case_from_bytes(data: &[u8]) -> Case {
+  let mut c = crate::from_bytes::Cur::new(data);
+  let n = 1 + c.below(10);
+  let ops = (0..n).map(|_| (c.u8() % 3, c.u8() % OPS.len() as u8)).collect();
+  let cfg = GenCfg { cached_under_replace: false, ..GenCfg::positional() };
+  let inner = crate::gen::normalize(crate::from_bytes::spec(&mut c, cfg.depth, cfg), cfg);
+  Case { inner, ops }
+}
+
 impl Prop for C10 {
   type Case = Case;
   const ID: &'static str = "C10";
@@ -84,6 +94,13 @@ impl Prop for C10 {
   }
   fn legs(&self, _tier: Tier) -> Vec<Leg<Case>> {
     vec![Leg { name: "histories", source: Cases::Generated(Box::new(strategy), 400_000, 5_000_000) }]
+  }
+  fn stages(&self, ctx: &Ctx) -> Vec<Stage> {
+    if ctx.tier == Tier::Thorough {
+      crate::fuzz::campaigns("C10", &["hist_c10"], ctx)
+    } else {
+      vec![]
+    }
   }
   fn check(&self, case: &Case) -> CheckResult {
     let inner = &case.inner;
